@@ -362,6 +362,10 @@ def drive_c04(ctx):
     for _ in range(100 if ctx.quick else 3000):
         rec.add('MarshalPart', P, nt=True, **actions.marshal_part(framegen.rand_method(rng)))
         rec.add('MarshalPart', P, nt=True, **actions.marshal_part(framegen.rand_header(rng).properties))
+    if ctx.shard == 3:
+        unrepresentable_strings(ctx, P)
+    if ctx.shard == 4:
+        exotic_but_accepted(ctx, P)
     for _ in range(200 if ctx.quick else 5000):
         ty = rng.choice(['octet', 'short', 'long', 'longlong', 'shortstr', 'longstr', 'table', 'timestamp'])
         if ty == 'timestamp':
@@ -447,6 +451,18 @@ def drive_c14(ctx):
                 except Exception as e:  # noqa
                     pos_in = [abstract(kw_[a]) for a in slots]
                     pos_back = [{'t': 'other', 'name': 'ctor:' + type(e).__name__} for _ in slots]
+        # ... and an argument that IS given is stored as given, also when it is falsy (0, '', False, {}): a default is for
+        # omitted arguments only
+        if sm_ and slots and pos_in and pos_back and pos_back[0].get('name', '')[:5] != 'ctor:':
+            FALSY = {'bit': False, 'octet': 0, 'short': 0, 'long': 0, 'longlong': 0, 'shortstr': '', 'longstr': '', 'table': {}}
+            tys = {a_: ty_ for a_, ty_, d_ in sm_[0][3]}
+            if all(tys.get(a) in FALSY for a in slots):
+                try:
+                    fo = cls(**{a: FALSY[tys[a]] for a in slots})
+                    pos_in = pos_in + [abstract(FALSY[tys[a]]) for a in slots]
+                    pos_back = pos_back + [abstract(getattr(fo, a, None)) for a in slots]
+                except ValueError:      # (a falsy value may break a send-side constraint: then there is nothing to read back)
+                    pass
         rec.add('CatalogEntry', P, nt=True, sigx=str(cls.name), key=as_int(key), name=str(cls.name), frame_id=as_int(cls.frame_id), index=as_int(cls.index),
                 slots=slots, types=types, sync=bool(cls.synchronous), sync_is_bool=isinstance(cls.synchronous, bool),
                 responses=[str(x) for x in cls.valid_responses], defaults=defaults,
@@ -712,6 +728,7 @@ def drive_c07(ctx):
     for b in short + longer + [x for x in frames if len(x) <= 300][:20 if ctx.quick else 200]:
         rec.add('CutSet', ['C07'], nt=True, sigx='reused-buffer', **actions.cutset(b, None, reuse=True))
     stale_header_pairs(ctx, ['C07'])
+    truncated_size_prefixes(ctx, ['C07'])
 
 
 # ---------------------------------------------------------------------------
@@ -1164,6 +1181,15 @@ def fuzz_inputs(ctx, scale):
                 continue
             for tail in (b'', b'\xce', b'hello\xce', b'\xce' * 8, b'\xce' * 61, b'\x00\x3c\x00\x50' + b'\xce' * 40):
                 yield 'negsize', struct.pack('>BHI', t, rng.choice([1, 0xCECE, 0x00CE]), size) + tail
+    # 7e. declared sizes with bits above 8 / 16 / 24 set and 0xCE where a narrower size field would end the frame
+    for bits in (8, 16, 24):
+        for r in (0, 1, 2, 5):
+            idx += 1
+            if not mine(ctx, idx):
+                continue
+            size = (1 << bits) + r
+            for t in (1, 2, 3):
+                yield 'size-trunc', struct.pack('>BHI', t, 1, size) + b'X' * r + b'\xce' * 3
     # 8. random byte strings, random payloads in valid envelopes
     for _ in range(150 * scale):
         n = rng.choice([0, 1, 6, 7, 8, 9, 12, rng.randint(0, 64), rng.randint(0, 400)])
@@ -1481,6 +1507,8 @@ def drive_c12(ctx):
     for i, sm in enumerate(framegen.METHODS):
         if mine(ctx, i):
             rec.add('RoundTrip', P, nt=True, **actions.roundtrip(framegen.rand_method(rng, sm), 1))
+    if ctx.shard in (0, 5):
+        exotic_but_accepted(ctx, P)
 
 
 # ---------------------------------------------------------------------------
@@ -1619,6 +1647,8 @@ def drive_c16(ctx):
             ctx.rec.add('Unmarshal', ['C16'], nt=True, label='after-faults', wf=True, **actions.unmarshal(good))
     history_insensitivity(ctx, ['C16'])
     cross_thread_toggles(ctx, ['C16'])
+    if ctx.shard in (2, 3):
+        exotic_but_accepted(ctx, ['C16'])
     if ctx.shard == 1:
         ambient_decimal_context(ctx, ['C16'])
     scheds = ctx.gen.get('schedules')
@@ -2209,6 +2239,107 @@ def conn_sessions(ctx, props):
         deliver('s', True)
         rec.add('ConnQuiesce', props, nt=True, left=len(buf['c']) + len(buf['s']) + len(wire['c']) + len(wire['s']),
                 inflight=len(queue['c']) + len(queue['s']))
+
+
+_KEEP = []       # referents of weak proxies stay alive for the life of the driver
+
+
+def exotic_but_accepted(ctx, props, frames=True):
+    """values the encoder accepts by isinstance(): bytes-like bodies the caller may go on using (bytearray, memoryview),
+    instances of FRESH subclasses of every accepted type (two new classes per call, so that each is seen for the first
+    time), weak proxies of containers -- first one kind then the other, so that anything remembered per type() shows"""
+    import collections
+    import datetime as dtm
+    import decimal
+    import enum
+    import weakref
+    from pamqp import body, commands, header
+    rec, rng = ctx.rec, ctx.rng
+    n = len(_KEEP)
+
+    def fresh(base, *a):
+        cls = type('V%d%s' % (len(_KEEP), base.__name__), (base,), {})
+        o = cls(*a)
+        _KEEP.append(o)
+        return o
+    E = enum.IntEnum('E%d' % n, {'A': 1, 'B': 40000, 'C': 3000000000})
+    for rnd in range(2):
+        order = [fresh(list, [1, 'x']), fresh(dict, {'k': 1}), fresh(int, 70000), fresh(str, 'text'), fresh(bytes, b'raw'),
+                 fresh(bytearray, b'ba'), fresh(float, 1.5), fresh(decimal.Decimal, '3.14'), fresh(collections.OrderedDict, [('b', 1), ('a', 2)]),
+                 E.B, E.C, collections.OrderedDict([('z', 1), ('y', [1, 2])]), collections.defaultdict(int, {'d': 5}),
+                 fresh(dtm.datetime, 2020, 5, 17, 12, 0, 0, 0, dtm.timezone.utc)]
+        if rnd:
+            order.reverse()
+        for v in order:
+            rec.add('EncodeValue', props, nt=True, label='subclass', **actions.encode_value(v, 'top'))
+            rec.add('EncodeValue', props, nt=True, label='subclass', **actions.encode_value({'v': v, 'l': [v]}, 'table'))
+    # weak proxies: isinstance() looks through them, type() does not
+    pl, pd = fresh(list, [1, 2, 3]), fresh(dict, {'p': 1})
+    for first, second in ((pl, pd), (pd, pl)):
+        for target in (first, second):
+            try:
+                px = weakref.proxy(target)
+                rec.add('EncodeValue', props, nt=True, label='proxy', **actions.encode_value({'v': px}, 'table'))
+            except TypeError:
+                pass
+    if frames:
+        for mk in (bytearray, memoryview, bytes):
+            for n_ in (1, 5, 206, 4096):
+                raw = bytes((i * 7 + n_) % 256 for i in range(n_ - 1)) + b'\xce'
+                rec.add('RoundTrip', props, nt=True, label='bytes-like body', **actions.roundtrip(body.ContentBody(mk(raw)), 3))
+        tbl = fresh(dict, {'x-max-length': 10})
+        rec.add('RoundTrip', props, nt=True, label='subclass', **actions.roundtrip(commands.Queue.Declare(queue=fresh(str, 'q'), arguments=tbl), 1))
+        rec.add('RoundTrip', props, nt=True, label='subclass', **actions.roundtrip(
+            header.ContentHeader(0, 1, commands.Basic.Properties(headers=collections.OrderedDict([('b', 1), ('a', E.A)]), priority=E.A)), 1))
+
+
+def truncated_size_prefixes(ctx, props):
+    """body frames whose declared size has bits above 8 / 16 / 24 / 31 set (frames too large to build here): the few bytes
+    supplied are a strict prefix of a valid body frame whatever they are, and they carry 0xCE exactly where a size read
+    through a narrower or signed field would look for the frame end"""
+    import struct
+    rec = ctx.rec
+    idx = 0
+    for bits in (8, 16, 24, 31, 32):
+        for m in (1, 2, 255):
+            for r in (0, 1, 2, 5):
+                size = ((m << bits) + r) & 0xFFFFFFFF if bits < 32 else (0xFFFFFFFF - r)
+                if size < 16 or size < r + 8:
+                    continue
+                idx += 1
+                if not mine(ctx, idx):
+                    continue
+                for ch in (1, 0xCECE):
+                    for content in (b'X' * r + b'\xce', b'\xce' * (r + 3), b'X' * r + b'\xce' + b'\x03\x00\x01\x00\x00\x00\x01Y\xce', b'X' * r):
+                        buf = struct.pack('>BHI', 3, ch, size) + content
+                        rec.add('Unmarshal', props, nt=True, label='size-trunc-%d' % bits, **actions.unmarshal(buf, extra={'body_prefix': True}))
+
+
+def unrepresentable_strings(ctx, props):
+    """short strings of more than 255 octets (the length prefix is ONE octet) in every place the send-side validation does
+    not look at: they have no encoding; refused, never emitted with a clamped or wrapped length"""
+    from pamqp import commands, header
+    rec = ctx.rec
+    longs = ['k' * 256, 'k' * 257, 'k' * 300, 'k' * 1000, '\u2708' * 86, '\u00e9' * 128, 'a' + '\u20ac' * 85, 'z' * 65536]
+    for sx in longs:
+        rec.add('EncodeArg', props, nt=True, unrep=True, **actions.encode_arg('shortstr', sx))
+        for mk in (lambda: commands.Basic.Publish(routing_key=sx), lambda: commands.Basic.Consume(queue='q', consumer_tag=sx),
+                   lambda: commands.Connection.StartOk(mechanism=sx), lambda: commands.Basic.Cancel(consumer_tag=sx),
+                   lambda: commands.Connection.Close(reply_text=sx), lambda: commands.Basic.Return(reply_text=sx),
+                   lambda: header.ContentHeader(0, 1, commands.Basic.Properties(content_type=sx)),
+                   lambda: header.ContentHeader(0, 1, commands.Basic.Properties(message_id='m', app_id=sx, priority=1))):
+            try:
+                fr = mk()
+            except ValueError:      # (send-side validation already refuses it at construction: not this family's business)
+                continue
+            rec.add('RoundTrip', props, nt=True, unrep=True, **actions.roundtrip(fr, 1))
+        if len(sx) <= 128:          # (longer names are shortened to 128 CHARACTERS first, which may still be too many octets)
+            rec.add('EncodeValue', props, nt=True, unrep=True, **actions.encode_value({sx: 1}, 'table'))
+            rec.add('EncodeValue', props, nt=True, unrep=True, **actions.encode_value({'a': {sx: 1}}, 'table'))
+    try:
+        rec.add('RoundTrip', props, nt=True, unrep=True, **actions.roundtrip(commands.Queue.Declare(queue='q' * 256), 1))
+    except ValueError:
+        pass
 
 
 def stale_header_pairs(ctx, props):
